@@ -4,6 +4,7 @@
    the byte the reader put in GET_SUPPORTED_VERSION_RESPONSE (data[0] >> 5 in the Go decoder). *)
 From Coq Require Import NArith List Bool.
 From LLRP Require Import Client.Negotiate Client.NegotiateProofs.
+From LLRP Require Client.Types Client.Model Client.NegRefine.
 Import ListNotations.
 Open Scope N_scope.
 
@@ -151,6 +152,36 @@ Theorem later_acks_any_position : forall cfg v ls i, nth_error ls i = Some Ack -
   nth_error (write_later cfg v ls) i = Some (mkMsg v MsgKeepAliveAck []).
 Proof. exact later_acks_everywhere. Qed.
 Print Assumptions later_acks_any_position.
+
+(* ---- consistency with the client LTS (Client/Model.v, the model behind C03–C10) ----------
+   [negotiate]/[session] above and the LTS's negotiation phases are two models of the same Go
+   code, each tied to Go by its own check.  Here: for every C06 configuration nc, every setting fu
+   of the unsolicited-reply filter, every client maximum, every pair of reader reactions both
+   models can express (NegRefine.expressible: all six kinds; a "wrong type" must not be one of the
+   three reader-initiated types), every ordinary message type typ and keep-alive id kid, the LTS
+   of a default client (built-in ackHandler, no user/default handlers) run through the canonical
+   schedule NegRefine.canon
+       ConnStart, ConnFirst (successful ReaderEventNotification),
+       [NegSubmit, WDefault, WAccept, WWriteHdr, WWritePay, RCheck, RFrame reply | Cancel, NegStep]
+         for GET_SUPPORTED_VERSION and — iff the LTS itself goes on to it — SET_PROTOCOL_VERSION,
+       ConnReady, and — iff the LTS's Connect has proceeded — a KEEPALIVE acknowledged
+       (RCheck, RFrame, WTakeAck, WWriteHdr) and SendMessage(typ) written
+       (Submit, PassGate, WDefault, WAccept, WWriteHdr)
+   writes exactly the frames [session] computes (version bits, type, payload as (length, tag)),
+   Connect proceeds/fails as [negotiate] says, and c.version ends as n_version.
+   The reader's frames stand for the reactions through NegRefine.reply_frame (the LTS sees the
+   decoded f_info; the decoding data[0] >> 5 is applied there); NoReply = the internal send ends
+   with ctx.Err() (event Cancel). *)
+Theorem C06_negotiate_agrees_with_lts : forall nc fu cmax r1 r2 typ kid,
+  NegRefine.expressible r1 -> NegRefine.expressible r2 -> is_neg_type typ = false ->
+  let cfg := NegRefine.lts_cfg nc fu cmax in
+  let s := Model.run cfg (NegRefine.canon nc cfg r1 r2 typ kid) in
+  let m := session nc cmax r1 r2 [Ack; Request typ []] in
+  map NegRefine.view_o (Types.out s) = map NegRefine.view_m (n_frames (fst m) ++ snd m) /\
+  NegRefine.lts_outcome s = Some (n_outcome (fst m)) /\
+  Types.version s = n_version (fst m).
+Proof. exact NegRefine.negotiate_agrees_with_lts. Qed.
+Print Assumptions C06_negotiate_agrees_with_lts.
 
 (* non-vacuity: concrete sessions *)
 (* client 1.1, reader at 1.0.1 able to do 1.1 (bytes 32, 64): query, switch to 1.1, accepted *)
